@@ -136,6 +136,41 @@ namespace N
 }
 
 
+# tokens that a code-modifying option deletes, each alone on its line and directly below a preprocessor directive: the two newline
+# chunks around the deleted token must still end up as one (newlines_cleanup_dup) before the blank-line limits are applied
+PPDEL = """void pr1(int a)
+{
+    g(a);
+#undef X
+    return;
+}
+void pr2(int a)
+{
+    if (a)
+#ifdef Y
+    {
+        g(a);
+    }
+#endif
+    g(a);
+#define W 1
+    ;
+    switch (a) {
+    case 1:
+#define Z 1
+    {
+        a = 2;
+    }
+    break;
+    default:
+        break;
+    }
+#undef W
+    return;
+}
+"""
+
+
 def inject(rng, text, maxb=6):
     out = []
     ls = text.split("\n")
@@ -301,6 +336,16 @@ def run(ctx):
             src = os.path.join(tmp, "p%d%s" % (len(progs), EXT[lang]))
             obs.write(src, inject(ctx.rng, t).encode())
             progs.append((src, lang))
+    # PPDEL under each deleting option x nl_max x eat_blanks
+    for v in range(2 if quick else 8):
+        src = os.path.join(tmp, "ppdel%d.c" % v)
+        obs.write(src, (inject(ctx.rng, PPDEL) if v else PPDEL).encode())
+        for dele in ("mod_remove_empty_return=true", "mod_case_brace=remove", "mod_remove_extra_semicolon=true", "mod_full_brace_if=remove",
+                     "mod_remove_empty_return=true\nmod_case_brace=remove\nmod_remove_extra_semicolon=true\nmod_full_brace_if=remove"):
+            for nlmax in (1, 2, 3):
+                for eb in ("true", "false"):
+                    cfgt = "nl_max=%d\n%s\neat_blanks_before_close_brace=%s\neat_blanks_after_open_brace=%s\nnl_inside_empty_func=0\n" % (nlmax, dele, eb, eb)
+                    jobs.append(((("ppdel|%d|%s|%d|%s" % (v, dele.split("=")[0].replace("\n", "+"), nlmax, eb)), src, None, cfgt, "C"), nlmax))
     ncfg = 180 if quick else 3000
     mods = [o for o in cfggen.registry(unc) if o["name"].startswith("mod_") and o["kind"] in ("iarf", "bool") and not o["name"].startswith("mod_sort")]
     for c in range(ncfg):
